@@ -19,7 +19,9 @@ RULE = ('gin-machine/macros: 1-3 parse phases; macro definitions, uses (%m) and 
         'are computed from the op list alone (last successful definition of every macro, last successful binding of every '
         'parameter), never from what gin stored. Key macros may evaluate to EQUAL keys (1 / True, equal strings, equal tuples: '
         'one entry, the earlier key and place, the later value) and to a list (TypeError); under a macro key stand literals, '
-        '@g(), macros and unbound macros (within one item the value is evaluated before the key).')
+        '@g(), macros and unbound macros (within one item the value is evaluated before the key). Keys that are equal already '
+        'when the statement is PARSED (the same macro or reference written twice, 1 / True) are one item of the bound value; a '
+        'literal key that cannot be hashed makes the statement raise TypeError.')
 TRUSTED_BASE = c01.TRUSTED_BASE
 ASSUMPTIONS = []
 
@@ -108,11 +110,55 @@ def full_sel(x, sels):
   return m[0] if len(m) == 1 else None
 
 
-class Bound:
-  """one successful binding as the op list shows it: the JSON value; the macro uses in it (name, evaluated); and, for the
-  %names that named a constant when the binding was parsed, that constant's (canonical) value"""
+def key_id(k, consts, sels):
+  """what dict(...) compares when the PARSER builds a dict literal: a literal key by Python equality (1 == True), a tuple
+  pointwise, a reference by (scopes, configurable, evaluated), a %name by the constant it names at that time, else by its
+  name.  Skip: not decided here (e.g. a key that cannot be hashed: the statement raises and binds nothing)"""
+  t = k[0]
+  if t == 'macro':
+    cm = const_match(k[1], consts)
+    return ('const', cm[0]) if len(cm) == 1 else ('macro', k[1])
+  if t == 'ref':
+    return ('ref', tuple(k[1]), full_sel(k[2], sels) or k[2], bool(k[3]))
+  if t in ('n', 'b', 'i', 's'):
+    return ('lit', c01.canon_plain(k))
+  if t == 't':
+    return ('tup', tuple(key_id(x, consts, sels) for x in k[1]))
+  raise Skip
 
-  def __init__(self, v, consts):
+
+def as_parsed(v, consts, sels):
+  """the JSON value as the parser builds it: in every dict literal the items whose keys are equal at parse time are ONE
+  item: the earlier key and place, the later value (the value written under the dropped key is not part of the binding:
+  its macros are not used)"""
+  t = v[0]
+  if t in ('l', 't'):
+    return [t, [as_parsed(x, consts, sels) for x in v[1]]]
+  if t == 'd':
+    items, ids = [], []
+    for k, x in v[1]:
+      kid = key_id(k, consts, sels)
+      px = as_parsed(x, consts, sels)
+      if kid in ids:
+        items[ids.index(kid)][1] = px
+      else:
+        ids.append(kid)
+        items.append([k, px])
+    return ['d', items]
+  return v
+
+
+class Bound:
+  """one successful binding as the op list shows it: the JSON value as the parser builds it (equal dict keys merged); the
+  macro uses in it (name, evaluated); and, for the %names that named a constant when the binding was parsed, that
+  constant's (canonical) value"""
+
+  def __init__(self, v, consts, sels=()):
+    self.undecided = False
+    try:
+      v = as_parsed(v, consts, sels)
+    except Skip:
+      self.undecided = True
     self.v = v
     self.cres, self.refs = {}, []
     for nm, ev in json_macro_refs(v):
@@ -128,7 +174,7 @@ def expect(b, binds, sels, runs, depth=0, v=None):
   of the LAST definition of m (binds[('macro', m)]), evaluated anew at this use; a dict literal is built item by item.
   `runs` collects one entry per evaluated reference to a registered configurable.  Raises Skip where the op list does not
   decide, KeyError(name) for a macro that no definition binds."""
-  if depth > 8:
+  if depth > 8 or b.undecided:
     raise Skip
   v = b.v if v is None else v
   t = v[0]
@@ -284,6 +330,20 @@ class MacroEngine(c01.CallEngine):
                 ['call', 'm.f', [], []], ['pbind', 'kk', ['s', 'x']], ['call', 'm.f', [], []],
                 ['pbind', 'kk', ['l', [['i', 1]]]],
                 ['pbind', 'f.b', ['d', [[['i', 1], ['i', 2]], [['macro', 'kk'], ['ref', [], 'g', True]], [['i', 3], ['ref', [], 'g', True]]]]],
+                ['call', 'm.f', [], []], ['finalize'], ['locked'], ['dumpcalls'], ['dumpconfig']]},
+            # the PARSER builds a dict literal with dict(...): keys that are equal then (the same macro / reference written
+            # twice, 1 and True) are ONE item: the earlier key and place, the later value; the value written under the dropped
+            # key is gone (its unbound macro is no defect for finalize), the key is evaluated once per call; a literal key
+            # that cannot be hashed makes the statement raise TypeError and bind nothing
+            {'regs': [f, g], 'ops': [
+                ['pbind', 'hk', ['ref', [], 'g', True]],
+                ['pbind', 'f.a', ['d', [[['macro', 'hk'], ['s', 'a']], [['i', 1], ['s', 'x']], [['macro', 'hk'], ['s', 'b']], [['b', True], ['s', 'y']],
+                                        [['ref', [], 'g', False], ['i', 1]], [['ref', [], 'g', True], ['macro', 'undefined']],
+                                        [['ref', [], 'n.g', False], ['i', 2]], [['ref', [], 'g', True], ['i', 3]],
+                                        [['ref', ['s1'], 'g', True], ['i', 4]]]]],
+                ['call', 'm.f', [], []], ['dumpcalls'], ['query', 'f.a'],
+                ['pbind', 'f.b', ['d', [[['i', 1], ['i', 2]], [['l', [['i', 1]]], ['macro', 'undefined']]]]],
+                ['pbind', 'f.b', ['l', [['d', [[['t', [['i', 1], ['l', []]]], ['i', 0]]]]]]],
                 ['call', 'm.f', [], []], ['finalize'], ['locked'], ['dumpcalls'], ['dumpconfig']]}]
 
   def gen(self, rng, tier):
@@ -378,6 +438,21 @@ class MacroEngine(c01.CallEngine):
                             ['macro', rng.choice(ks)] if z < 0.93 else ['macro', 'undefined']])
             if rng.random() < 0.4:
               items.insert(rng.randrange(len(items) + 1), [rng.choice([['i', 1], ['b', False], ['s', 'ka'], ['i', 2]]), ['s', 'lit']])
+            z = rng.random()
+            if z < 0.3:
+              # the same key written twice (a macro, @helper, @helper(): equal references are ONE key for the PARSER's
+              # dict(...): the later value under the earlier key, one evaluation per call), or two literal keys that are
+              # equal in Python (1 / True)
+              i = rng.randrange(len(items))
+              dup = rng.choice([items[i][0], ['ref', [], helper['sel'], rng.random() < 0.5], ['i', 1]])
+              first = [dup, rng.choice([['s', 'first'], ['macro', 'undefined'], ['ref', [], helper['sel'], True]])]
+              second = [['b', True] if dup == ['i', 1] and rng.random() < 0.5 else list(dup), rng.choice([['s', 'second'], ['i', 9]])]
+              if dup is not items[i][0]:
+                items.insert(rng.randrange(len(items) + 1), first)
+              items.insert(rng.randrange(len(items) + 1), second)
+            elif z < 0.36:
+              # a literal key that cannot be hashed: the statement raises TypeError and binds nothing
+              items.insert(rng.randrange(len(items) + 1), [rng.choice([['l', [['i', 1]]], ['d', []], ['t', [['i', 1], ['l', []]]]]), ['i', 0]])
             v = ['d', items]
             for q in consumer['sig']['args']:
               if q != p and rng.random() < 0.8:
@@ -426,14 +501,14 @@ class MacroEngine(c01.CallEngine):
         if op[1] in macro_first_use:
           nontrivial = True            # a use precedes this (re)definition
         macro_def[op[1]] = op[2]
-        binds[('macro', op[1])] = Bound(op[2], consts)
+        binds[('macro', op[1])] = Bound(op[2], consts, sels)
       if k == 'pbind' and exc is None and '.' in op[1].rpartition('/')[2]:
         for nm in ([op[2][1]] if op[2][0] == 'macro' else [x[1] for x in op[2][1] if x[0] == 'macro'] if op[2][0] == 'l' else
                    [r[0] for r in json_macro_refs(op[2])] if op[2][0] == 'd' else []):
           macro_first_use.setdefault(nm, True)
         scope_, _, sp = op[1].rpartition('/')
         q, _, prm = sp.rpartition('.')
-        binds[('param', scope_, full_sel(q, sels) or q, prm)] = Bound(op[2], consts)
+        binds[('param', scope_, full_sel(q, sels) or q, prm)] = Bound(op[2], consts, sels)
       if k == 'constant':
         name = op[1]
         import re
